@@ -24,7 +24,49 @@ def _c42_classes(i, o):
     return cls
 
 
+def _c41_classes(i, o):
+    cls = ['into=%s' % {0: 'ok', 1: 'err', 2: 'panic'}.get(i[0]), 'shutdown=%s' % {0: 'ok', 1: 'err', 2: 'panic'}.get(i[2])]
+    ops = i[3]
+    cls.append('ops=%d' % min(len(ops), 12))
+    if isinstance(o, list) and o and isinstance(o[-1], list) and len(o[-1]) == 6:
+        last = o[-1]
+        cls.append('final=%s' % ['not-started', 'starting', 'started', 'stopping', 'stopped', 'stopped-with-error'][last[1]])
+        cls.append('run_calls=%d' % min(last[3], 4))
+        cls.append('shutdown_calls=%d' % last[4])
+        if any(isinstance(x, list) and x[0] == 0 and k > 0 for k, x in enumerate(o) if ops[k] == 0):
+            cls.append('start rejected')
+        if ops.count(1) >= 2:
+            cls.append('stop twice')
+        seen_stop = False
+        for k, op in enumerate(ops):
+            if op == 1:
+                seen_stop = True
+            if op == 0 and seen_stop:
+                cls.append('start after stop')
+                break
+        if any(len(x[5]) > 0 and any(len(r) > 0 for r in x[5]) for x in o if isinstance(x, list) and len(x) == 6):
+            cls.append('an awaiter returned')
+    return cls
+
+
 PROPS = {
+    'C41': dict(
+        id='C41', cluster='Svc', crate='h-svc', tag=41,
+        n={'quick': 3000, 'thorough': 60000},
+        translators=[['python3', 'translators/seqlock2coq.py']],
+        theorems=[],
+        classify=_c41_classes,
+        rule='real ServiceRunner on a current-thread tokio runtime with a scripted task whose into_task/run/shutdown '
+             'calls wait for a permit: every sequence of <= 4 (thorough 6) ops over {start, stop, permit, await_stop} x '
+             'every (into_task, first run, shutdown) outcome; the unit-test life cycles with stop twice / start after '
+             'stop / stop before start for every outcome; random sequences of 3..14 (24) ops with random scripts. '
+             'non-trivial = distinct input with a non-empty observation trace',
+        assumptions=['PARTIAL: tokio watch / task scheduling are modelled as atomic steps on (cell, version); '
+                     'the user task is a script of outcomes behind a permit gate',
+                     'the ServiceRunner handle is alive while awaiters wait (the watch channel is not closed)'],
+        level='proof',
+        shard=2000,
+    ),
     'C42': dict(
         id='C42', cluster='Svc', crate='h-svc', tag=42,
         n={'quick': 600, 'thorough': 12000},
